@@ -217,3 +217,67 @@ class MvpBlockOrder(Contract):
         spec = M.sqrt_class_factor(vc, a["space"]) * M.sqrt_class_factor(vc, block[1]) * m * y
         return [("is-M-times-Y-with-one-1/sqrt(n_o!n_v!)-per-vector",
                  as_expr(result).f["val"] == spec)]
+
+
+# --- mvp: summation of the blocks of one row of the ADC(n) matrix -----------------------------
+C.INLINE.add(SM + ".block_order")
+C.INLINE.add(SM + ".max_ptorder_spaces")
+C.INLINE.add(c04.ISR + ".validate_space")
+C.INLINE.add(c04.ISR + "._generate_lower_spaces")
+
+
+def _mvp_value(block, o, sub):
+    key = ",".join(block) if isinstance(block, tuple) else block
+    f = M.fn(f"MVPBLOCK[{key}]", z3.IntSort(), z3.BoolSort(), z3.RealSort())
+    return f(term(o) if not isinstance(o, int) else z3.IntVal(o), term(sub))
+
+
+def _mvp_block_callers_view(self, vc, a):
+    ok = a["space"] == (a["block"][0] if isinstance(a["block"], tuple) else a["block"].split(",")[0])
+    vc.check("pre@mvp_block_order#result-space-is-the-bra-space-of-the-block", bool(ok))
+    e = mk_expr(_mvp_value(a["block"], a["order"], a["subtract_gs"]), False)
+    e.f["stamps"] = frozenset()
+    return e
+
+
+MvpBlockOrder.apply = _mvp_block_callers_view
+
+
+def _class_space(min_space, k):
+    return "p" * k + min_space + "h" * k
+
+
+@register
+class Mvp(Contract):
+    key = SM + ".mvp"
+    props = ["C03"]
+    CASES = [(n, k, sel, var) for n in range(0, 5) for k in range(0, 3) for sel in ("all", "zero", "highest")
+             for var in ("pp", "ip")]
+    split_first_choice = len(CASES)
+
+    def setup(self, vc):
+        n, k, sel, var = self.CASES[vc.choose(len(self.CASES), "case")]
+        order = {"all": None, "zero": 0, "highest": n}[sel]
+        ms = c04.VARIANTS[var][0]
+        space = _class_space(ms, k)
+        idx = "ijk"[:space.count("h")] + "abc"[:space.count("p")]
+        vc.ghost["_mvp"] = {"n": n, "k": k, "order": order, "min": ms}
+        return {"self": new_sm(vc, var), "adc_order": n, "space": space, "indices": idx,
+                "order": order, "subtract_gs": Sym(vc.fresh_bool("subtract_gs"))}
+
+    def raises(self, vc, a):
+        st = vc.ghost["_mvp"]
+        return [("Inputerror", st["k"] > st["n"] // 2)]
+
+    def post(self, vc, a, result):
+        st = vc.ghost["_mvp"]
+        n, k, order, ms = st["n"], st["k"], st["order"], st["min"]
+        total = z3.RealVal(0)
+        for kb in range(n // 2 + 1):
+            mx = n - k - kb
+            block = (_class_space(ms, k), _class_space(ms, kb))
+            orders = range(mx + 1) if order is None else ([order] if mx >= order else [])
+            for o in orders:
+                total = total + _mvp_value(block, o, a["subtract_gs"])
+        val = z3.RealVal(result) if isinstance(result, int) else as_expr(result).f["val"]
+        return [("is-the-sum-over-the-blocks-of-the-row-through-their-ADC(n)-orders", val == total)]
